@@ -1480,6 +1480,7 @@ class Exec:
                 self.sites.append({"fn": self.cur_fn_label, "path": self.cur_fn_path, "block": None, "what": "slice-index", "kind": "RangeTo",
                                    "operands": {"start": base[2], "end": mid, "len": ln_, "array": base[1], "upper": base[3]}, "facts": dict(st.facts), "span": t["span"], "root_depth": self.depth})
                 return ("adt", "tuple", (0, ""), (("0", ("sliceiter", base[1], base[2], mid)), ("1", ("sliceiter", base[1], mid, base[3]))), False)
+            raise Unsupported("split_at on something that is not a recognised slice: " + show(base)[:60])
         if re.search(r"<impl \[[^\]]*\]>::len$", nn) and isinstance(args[0], tuple) and args[0][0] == "sliceiter":
             a_ = args[0]
             return fold("-", a_[3], a_[2]) if a_[2] != cu(0) else a_[3]
